@@ -9,25 +9,28 @@ handed to the state machine).  `PersistBeforeExternalise c`: `Safe` in every sta
 with crashes anywhere.
 
 PROVED
-* tie: `arm_is_source_arm` (the model's arm = the calls go/ast extracts from serveChannels on every run), `armOrder_eq`.
+* **`persist_before_externalise : PersistBeforeExternalise {}`** (and `_cfg` for every configuration that runs `theArm`; `never_down`: the
+  node can always start again).  Proof: the invariant `Inv` (Props/C08ReadyInv.lean: the full crash image has raft's hard state and covers
+  raft's log; outside the unsynced windows every crash image has raft's term and vote and covers it; what is known of the Ready in
+  progress) is kept by every statement (`inv_stmt`, Props/C08ReadyStmtA…F, `inv_walWrite_core` consumes the contract), by taking a
+  conforming Ready (`inv_take`), by crash + restart (`inv_crash`), and holds initially (`inv_init`); `inv_run` (Props/C08ReadyRun.lean).
+* **`restart_no_regress`**: `persisted_hard_state_never_regresses` (along every conforming run the hard state of the synced records —
+  term, commit index, the vote of a term — never goes back, crashes and restarts included), `restart_reads_durable`,
+  `restart_no_regress_run` (of two restarts the later never starts behind the earlier) — Props/C08ReadyMono.lean; and the state form
+  `restart_no_regress` (what `Safe` gives about term, vote, log end, entries, snapshot of any restart).
+* `snapshot_never_loses` (maybeTriggerSnapshot with a crash between any two of its steps), `quiet_stmt_safe`, `take_safe`,
+  `crash_restart_safe`, `externalise_safe`; Props/C08ReadySave.lean `save_keeps_promises` / `walWrite_safe` (`wal.Save` torn after ANY record);
+  Props/C08ReadyDisk.lean `promise_survives_growth`, `promise_survives_entry`.
+* tie: `arm_is_source_arm` (the model's arm = the calls go/ast extracts from serveChannels on every run), `armOrder_eq`; the model's
+  `replayRecs` is compared with the real recovery functions on every observed disk state by the driver engine `ready` (Driver/Ready.lean).
 * negative (kernel-evaluated runs): `send_before_save_violates` / `persistBeforeExternalise_false_send_first` (Send moved before wal.Save),
-  `missing_snapshot_sync_violates` / `missing_snapshot_sync_restart` / `persistBeforeExternalise_false_without_sync` (the arm before e044e73),
-  `snapshot_with_entries_strands` (FINDING on the model: a Ready with a snapshot AND entries, `wal.Save` torn between the entry and the hard
-  state, leaves a WAL `replayWAL` cannot open; excluded by `ReadyOk`).
-* positive, for every state and every Ready: `quiet_stmt_safe` (12 of the 16 statements keep `Safe` unconditionally), `snapshot_never_loses`
-  (maybeTriggerSnapshot with a crash between any two of its steps), `take_safe`, `crash_restart_safe` (crash + restart keep `Safe`, the node
-  starts, its view is the one `Safe` spoke of), `restart_no_regress` (what `Safe` gives about term, vote, log end, entries, snapshot);
-  `walWrite_safe` (from `save_keeps_promises`, Props/C08ReadySave.lean: `wal.Save` torn after ANY record keeps every promise not taken
-  back, given entries consecutive / above the on-disk snapshot / at most one past the on-disk log end and a hard state that does not go
-  back); `externalise_safe` (send / publishEntries / publishSnapshot keep `Safe` iff the new promises hold in every crash image);
-  Props/C08ReadyDisk.lean `promise_survives_growth`, `promise_survives_entry` ("at every later moment", record by record).
-* non-vacuity: `snapshot_run_safe_now`, `long_run_safe_now` (conforming runs through the arm as it is — leader snapshot; own snapshot
-  interrupted by a crash, torn wal.Save, overwritten tail — are `Safe` after every event).
+  `missing_snapshot_sync_violates` / `missing_snapshot_sync_restart` / `persistBeforeExternalise_false_without_sync` (the arm before e044e73).
+* non-vacuity: `snapshot_run_safe_now`, `long_run_safe_now` (conforming runs with a leader snapshot, an own snapshot interrupted by a crash, a
+  torn wal.Save, an overwritten tail).
 
-NOT PROVED (hence no theorem named `persist_before_externalise`): `PersistBeforeExternalise {}` itself.  What is missing is the glue
-invariant between the volatile node and the disk (the full crash image has raft's hard state and covers the in-memory log; outside the
-wal.Save window every image does) that discharges the hypotheses of `walWrite_safe` and `externalise_safe` from `ReadyOk` along a run.
-The statement is evaluated on concrete runs here and on the real loop by the `readyloop` engine. -/
+LIMIT of the statement (why `ReadyOk` is one clause narrower than etcd's contract): `snapshot_with_entries_strands` — a Ready with a snapshot
+AND entries, `wal.Save` torn between the entry records and the hard state, leaves a WAL `replayWAL` cannot open.  Reproduced on the real code
+(tools/repro_torn_snapshot_save_test.go.txt): `raftexample: failed to read WAL (wal: slice bounds out of range)` on every start. -/
 namespace ReadyLoop
 namespace C08Ready
 
